@@ -1,4 +1,207 @@
 package main
 
-// runC13S3 is filled in once the S3 builder exists.
-func runC13S3(r *Report) {}
+// C13 (S3 part): the generated package serves exactly the embedded constant,
+// and the constant's value (go/constant evaluation, no execution) equals the
+// input file for every corpus program.
+
+import (
+	"go/ast"
+	"go/constant"
+	"go/token"
+	"go/types"
+	"os"
+	"strings"
+)
+
+func runC13S3(r *Report) {
+	r.Rule("C13/const-equals-file", "the compile-time value of the generated SpecFile constant (go/constant) equals the bytes of the input spec file, for every corpus program (incl. CR/LF, backtick, backslash, one-line specs)")
+	r.Rule("C13/serve", "SpecFileHandler writes the package-level []byte(SpecFile) once after status 200; specFileBs is never reassigned; ServeHTTP's spec branch (SpecFileHandler != nil && path == <base>/<spec name>) precedes routing and middlewares and returns")
+	s3, progs := loadRouted(r, "C13", S3Options{TemplateDebug: false})
+	if s3 == nil {
+		return
+	}
+	defer s3.Close()
+	n := 0
+	for _, rp := range progs {
+		p, m, o := rp.P, rp.M, rp.O
+		info := p.Pkg.TypesInfo
+		key := p.Name
+		// constant value
+		k, _ := p.Pkg.Types.Scope().Lookup("SpecFile").(*types.Const)
+		raw, err := os.ReadFile(p.SpecPath)
+		if k == nil || err != nil || k.Val().Kind() != constant.String {
+			r.Undecided("C13/const-equals-file", key, "", "SpecFile constant or spec file not found")
+			continue
+		}
+		n++
+		val := constant.StringVal(k.Val())
+		if val == string(raw) {
+			r.OK("C13/const-equals-file", key, "", "")
+		} else {
+			i := 0
+			for i < len(val) && i < len(raw) && val[i] == raw[i] {
+				i++
+			}
+			r.Violation("C13/const-equals-file", key, "", "the embedded constant differs from the input file at byte offset "+itoa(i)+" (lengths "+itoa(len(val))+" vs "+itoa(len(raw))+")")
+		}
+		// serve branch
+		sm := m.Serve
+		if len(sm.Undecided) > 0 {
+			r.Undecided("C13/serve", key+":API.ServeHTTP", s3.pos(sm.Decl.Pos()), strings.Join(sm.Undecided, "; "))
+		} else {
+			want := o.BasePath + "/" + p.SpecHandlerName
+			r.Check(sm.SpecConst == want && sm.SpecNilGuard && sm.SpecBeforeRoute && sm.SpecReturns, "C13/serve", key+":API.ServeHTTP", s3.pos(sm.Decl.Pos()),
+				"spec route constant is "+sm.SpecConst+", expected "+want+" (base path + '/' + spec name), guarded by SpecFileHandler != nil, before route() and returning")
+		}
+		// handler
+		fd := p.funcDecl("", "SpecFileHandler")
+		if fd == nil {
+			r.Undecided("C13/serve", key+":SpecFileHandler", "", "not found")
+			continue
+		}
+		why := specHandlerShape(p, fd)
+		if why == "" {
+			r.OK("C13/serve", key+":SpecFileHandler", s3.pos(fd.Pos()), "")
+		} else {
+			r.Undecided("C13/serve", key+":SpecFileHandler", s3.pos(fd.Pos()), why)
+		}
+		// specFileBs: defined as []byte(SpecFile), never assigned
+		bsObj, _ := p.Pkg.Types.Scope().Lookup("specFileBs").(*types.Var)
+		okInit, assigned := false, false
+		for _, f := range p.Pkg.Syntax {
+			ast.Inspect(f, func(nd ast.Node) bool {
+				switch x := nd.(type) {
+				case *ast.ValueSpec:
+					for i, nm := range x.Names {
+						if info.Defs[nm] == bsObj && bsObj != nil && i < len(x.Values) {
+							if call, ok := x.Values[i].(*ast.CallExpr); ok && len(call.Args) == 1 {
+								if tv, ok := info.Types[call.Fun]; ok && tv.IsType() && identObj(info, call.Args[0]) == types.Object(k) {
+									okInit = true
+								}
+							}
+						}
+					}
+				case *ast.AssignStmt:
+					for _, l := range x.Lhs {
+						root := l
+						for {
+							if ix, ok := root.(*ast.IndexExpr); ok {
+								root = ix.X
+								continue
+							}
+							if sl, ok := root.(*ast.SliceExpr); ok {
+								root = sl.X
+								continue
+							}
+							break
+						}
+						if bsObj != nil && identObj(info, root) == types.Object(bsObj) {
+							assigned = true
+						}
+					}
+				case *ast.UnaryExpr:
+					if x.Op == token.AND && bsObj != nil && identObj(info, x.X) == types.Object(bsObj) {
+						assigned = true
+					}
+				}
+				return true
+			})
+		}
+		r.Check(okInit && !assigned, "C13/serve", key+":specFileBs", "", "specFileBs is not initialised as []byte(SpecFile) or is written/aliased somewhere in the package")
+	}
+	r.FloorMin("programs with SpecFile constant", n, 40)
+}
+
+func itoa(i int) string {
+	if i == 0 {
+		return "0"
+	}
+	s := ""
+	neg := i < 0
+	if neg {
+		i = -i
+	}
+	for i > 0 {
+		s = string(rune('0'+i%10)) + s
+		i /= 10
+	}
+	if neg {
+		s = "-" + s
+	}
+	return s
+}
+
+// specHandlerShape: return http.HandlerFunc(func(rw, r) { rw.Header().Set(..); rw.WriteHeader(200); _, err := rw.Write(specFileBs); if err != nil { LogError(..) } })
+func specHandlerShape(p *Program, fd *ast.FuncDecl) string {
+	info := p.Pkg.TypesInfo
+	c := &rmCtx{p: p, info: info}
+	if len(fd.Body.List) != 1 {
+		return "SpecFileHandler body is not a single return"
+	}
+	ret, ok := fd.Body.List[0].(*ast.ReturnStmt)
+	if !ok || len(ret.Results) != 1 {
+		return "SpecFileHandler body is not a single return"
+	}
+	conv, ok := ret.Results[0].(*ast.CallExpr)
+	if !ok || len(conv.Args) != 1 {
+		return "does not return http.HandlerFunc(func…)"
+	}
+	fl, ok := conv.Args[0].(*ast.FuncLit)
+	if !ok {
+		return "does not return http.HandlerFunc(func…)"
+	}
+	var names []*ast.Ident
+	for _, f := range fl.Type.Params.List {
+		names = append(names, f.Names...)
+	}
+	if len(names) != 2 {
+		return "handler parameters"
+	}
+	rw := info.Defs[names[0]]
+	writes, headers, hdrIdx, wIdx, whIdx := 0, 0, -1, -1, -1
+	for i, st := range fl.Body.List {
+		ast.Inspect(st, func(nd ast.Node) bool {
+			call, ok := nd.(*ast.CallExpr)
+			if !ok {
+				return true
+			}
+			sel, ok := call.Fun.(*ast.SelectorExpr)
+			if !ok {
+				return true
+			}
+			switch {
+			case sel.Sel.Name == "Write" && c.isObj(sel.X, rw):
+				writes++
+				wIdx = i
+				if len(call.Args) != 1 {
+					writes += 100
+					return true
+				}
+				o := identObj(info, call.Args[0])
+				v, _ := o.(*types.Var)
+				if v == nil || v.Parent() != p.Pkg.Types.Scope() || v.Name() != "specFileBs" {
+					writes += 100
+				}
+			case sel.Sel.Name == "WriteHeader" && c.isObj(sel.X, rw):
+				headers++
+				whIdx = i
+				if k, ok := c.constInt(call.Args[0]); !ok || k != 200 {
+					headers += 100
+				}
+			case sel.Sel.Name == "Set" || sel.Sel.Name == "Add":
+				hdrIdx = i
+			}
+			return true
+		})
+	}
+	if writes != 1 {
+		return "the handler does not write exactly once the package-level specFileBs"
+	}
+	if headers != 1 {
+		return "the handler does not call WriteHeader(200) exactly once"
+	}
+	if !(hdrIdx < whIdx && whIdx < wIdx) {
+		return "order is not header, status, body"
+	}
+	return ""
+}
